@@ -38,7 +38,7 @@ RULE = ("A case is an interval [a,b] (a from a fixed list of integers/dyadic/irr
         "half of the cases the caller then overwrites its own containers and the grid's answers must not move "
         "(1e-13 rel.). Suffixes /argument-form=points|levels:<form>, .../caller-argument-modified, "
         ".../after-caller-reused-its-container. Sub-checks: trapezoid (boundary / noboundary / modified), highorder "
-        "(boundary T/F, max_degree 1-5, split_up T/F), hierarchical (Lagrange p 1-4, B-spline p 1,3,5 with boundary; "
+        "(boundary T/F, do_nnls T/F, max_degree 1-5, split_up T/F), hierarchical (Lagrange p 1-6, B-spline p 1,3,5 with boundary; "
         "B-spline boundary-off modified for the constant clause). Non-trivial = some dimension has >= 5 points and two "
         "leaves of different width. Distinct = distinct case dict. Class counters show the 3/4/5-point special cases, "
         "even/odd point counts, weighted and graded trees, reported high-order degrees, d=2.")
@@ -70,7 +70,14 @@ ASSUMPTIONS = [
     "high-order rule, attained order: only on uniform grids (>= 3 points, boundary on) is a minimum order demanded "
     "(min(2, max_degree); the degree-2 moment-matched weights are positive there: Simpson for 3 points, trapezoid*(1-O(h^2)) beyond); elsewhere the attained order depends on the "
     "library's non-negativity test and only 'exact up to what it reports' is demanded",
-    "GlobalHighOrderGrid: do_nnls=False and modified_basis=False (no live caller passes anything else)",
+    "constructor options covered: GlobalTrapezoidalGrid(boundary, modified_basis); GlobalHighOrderGrid(boundary, do_nnls, "
+    "max_degree 1-5, split_up) - do_nnls=True has the same clauses as False; GlobalLagrangeGrid(p 1-6, boundary=True); "
+    "GlobalBSplineGrid(p 1/3/5, boundary=True | boundary=False+modified). Not generated, because the unchanged tree does "
+    "not support them: GlobalHighOrderGrid(modified_basis=True) (its only caller is dead code marked 'does not work'; "
+    "raises ValueError/ZeroDivisionError/IndexError on most trees because the modified trapezoidal weights it uses as a "
+    "discrete measure are negative), GlobalBSplineGrid(chebyshev=True) (no caller; its own get_mid_point gives unsorted "
+    "points for [a,b] != [0,1]), GlobalSimpsonGrid (TypeError on every even point count; boundary=False loses mass), "
+    "GlobalRombergGrid (property C11), the *Weighted classes (need a UQ operation, property C15)",
     "GlobalBSplineGrid trees are generated with tree level <= 11 (quick) / 13 (thorough): the class materialises the "
     "complete dyadic hierarchy (2^level entries per level), deeper trees are infeasible for the library itself; the "
     "other grids see levels up to 40/60",
@@ -722,12 +729,13 @@ def run_highorder(case):
     boundary = bool(case["boundary"])
     maxdeg = int(case["max_degree"])
     split = bool(case["split_up"])
+    nnls = bool(case.get("do_nnls", False))
     a, b = _domain_of(case)
     dim = len(a)
-    out.cls("boundary=%s" % boundary, "split_up=%s" % split, "max_degree=%d" % maxdeg, "d=%d" % dim)
+    out.cls("boundary=%s" % boundary, "split_up=%s" % split, "max_degree=%d" % maxdeg, "d=%d" % dim, "do_nnls=%s" % nnls)
 
     def make_grid():
-        return GlobalHighOrderGrid(a, b, boundary=boundary, max_degree=maxdeg, split_up=split)
+        return GlobalHighOrderGrid(a, b, boundary=boundary, do_nnls=nnls, max_degree=maxdeg, split_up=split)
 
     def check_round(out, g, trees, splits, rk):
         nb = len(out.violations)
@@ -750,8 +758,8 @@ def run_highorder(case):
                     _ho_blocks_explain(g, pts, lev, wfull, 0, len(pts) - 1, causes)
                 for cause in (sorted(causes) if causes else ["unexplained"]):
                     out.bad("%s/constants/%s/%s" % (sub, tagb, cause),
-                            "dim %d: weights sum to %r, interval length %r; split_up=%s max_degree=%d n=%d pts=%s"
-                            % (d, mass, L, split, maxdeg, len(pts), pts[:10]))
+                            "dim %d: weights sum to %r, interval length %r; split_up=%s max_degree=%d do_nnls=%s n=%d pts=%s"
+                            % (d, mass, L, split, maxdeg, nnls, len(pts), pts[:10]))
             # (2) the degree the rule itself reports (second, observing call on the same object)
             w0, deg = _silent(g.get_1D_weights_and_order, list(pts), a[d], b[d], list(lev))
             if split and len(pts) > 1 and (len(pts) > 3 or boundary):
@@ -1090,7 +1098,8 @@ def highorder_strategy(tier):
             return _tree(draw(st.integers(1, 5)) if small else (big if dim == 1 else 14))
         trees = [draw(tree()) for _ in range(dim)]
         case = dict(a=a, len=ln, scale=scale, boundary=draw(st.booleans()), max_degree=draw(st.sampled_from([2, 5, 2, 5, 1, 3, 4])),
-                    split_up=draw(st.booleans()), trees=trees, rng=draw(st.integers(0, 2 ** 31 - 1)))
+                    split_up=draw(st.booleans()), do_nnls=draw(st.sampled_from([False, False, True])), trees=trees,
+                    rng=draw(st.integers(0, 2 ** 31 - 1)))
         if draw(st.integers(0, 3)) == 0:
             case["seq"] = draw(_seq(dim, tree))
         if draw(st.integers(0, 3)) > 0:
@@ -1115,6 +1124,15 @@ def highorder_fixed():
                 for a, ln in ((0.0, 1.0), (-3.0, 9.0), (2.0, 0.5)):
                     cases.append(dict(a=[a], len=[ln], boundary=True, max_degree=md, split_up=split,
                                       trees=[complete_splits(depth)], rng=0))
+                    if a == 0.0:
+                        cases.append(dict(a=[a], len=[ln], boundary=True, max_degree=md, split_up=split, do_nnls=True,
+                                          trees=[complete_splits(depth)], rng=0))
+    for bd in (True, False):
+        for split in (False, True):
+            cases.append(dict(a=[-1.0], len=[3.0], boundary=bd, max_degree=5, split_up=split, do_nnls=True,
+                              trees=[[[0, 0.5]] * 4], rng=0))                       # refined towards the left end
+            cases.append(dict(a=[0.0], len=[1.0], boundary=bd, max_degree=5, split_up=split, do_nnls=True,
+                              trees=[[[0, 0.5], [1, 0.2], [0, 0.8], [2, 0.35], [4, 0.6180339887498949]]], rng=0))
     cases.append(dict(a=[0.0, 2.0], len=[1.0, 3.0], boundary=True, max_degree=2, split_up=False,
                       trees=[complete_splits(2), complete_splits(3)], rng=0))
     return cases
@@ -1129,9 +1147,9 @@ def hierarchical_strategy(tier):
         a, ln, scale = draw(_domain(dim))
         family = draw(st.sampled_from(["lagrange", "bspline"]))
         if family == "lagrange":
-            p = draw(st.sampled_from([1, 2, 3, 4, 3, 2]))
+            p = draw(st.sampled_from([1, 2, 3, 4, 3, 2, 5, 6]))
             mode = "boundary"
-            need = draw(st.sampled_from([0, 0, max(0, p - 1)]))
+            need = draw(st.sampled_from([0, 0, min(4, max(0, p - 1))]))
         else:
             p = draw(st.sampled_from([1, 3, 5, 3]))
             mode = draw(st.sampled_from(["boundary", "boundary", "boundary", "modified"]))
